@@ -40,7 +40,7 @@ class ConfigMap:
 
 SUPPORTED = {"Template", "Output", "TemplateData", "Assign", "If", "For", "Name", "Const", "Getitem", "Getattr", "Filter", "Test",
              "Add", "Concat", "List", "Slice", "Call", "Or", "Sub", "Compare", "Operand", "Not", "And", "CondExpr", "Tuple", "Macro", "Keyword",
-             "Mul", "Dict", "Pair"}
+             "Mul", "Dict", "Pair", "Neg", "Pos", "Div", "FloorDiv", "Mod"}
 
 
 class JinjaAI:
@@ -118,18 +118,41 @@ class JinjaAI:
             it = self.expr(n.iter)
             if not isinstance(it, (list, tuple)):
                 raise AnalysisError(f"{self.name}:{n.lineno}: loop over a non-list value")
-            if not isinstance(n.target, nodes.Name):
+            if not isinstance(n.target, nodes.Name) and not (isinstance(n.target, nodes.Tuple) and all(isinstance(t_, nodes.Name) for t_ in n.target.items)):
                 raise NotModelled(f"{self.name}:{n.lineno}: loop target not modelled")
             saved = dict(self.env)
-            for item in it:
-                self.env[n.target.name] = item
+            items_ = list(it)
+            if n.test is not None:
+                # for x in xs if test: the filter decides which items the loop (and loop.index) sees
+                kept = []
+                for item in items_:
+                    self._bind(n.target, item, n)
+                    if self.truth(self.expr(n.test)):
+                        kept.append(item)
+                items_ = kept
+            for i_, item in enumerate(items_):
+                self._bind(n.target, item, n)
+                self.env["loop"] = {"index": i_ + 1, "index0": i_, "first": i_ == 0, "last": i_ == len(items_) - 1, "length": len(items_),
+                                    "revindex": len(items_) - i_, "revindex0": len(items_) - i_ - 1}
                 self.block(n.body)
+            if not items_ and n.else_:
+                self.block(n.else_)
             # Jinja loops have their own scope: assignments inside do not leak (in-place list mutations do)
             self.env = saved
         elif isinstance(n, nodes.Macro):
             self.env[n.name] = ("macro", n)
         else:
             raise NotModelled(f"{self.name}: statement {type(n).__name__} not modelled")
+
+    def _bind(self, target, item, n):
+        if isinstance(target, nodes.Name):
+            self.env[target.name] = item
+            return
+        vals = list(item) if isinstance(item, (list, tuple)) else None
+        if vals is None or len(vals) != len(target.items):
+            raise AnalysisError(f"{self.name}:{n.lineno}: cannot unpack a loop item into {len(target.items)} names")
+        for t_, v_ in zip(target.items, vals):
+            self.env[t_.name] = v_
 
     def truth(self, v):
         if v is UNDEF:
@@ -188,6 +211,15 @@ class JinjaAI:
                     raise AnalysisError(f"{self.name}:{n.lineno}: comparison of incompatible values")
                 left = right
             return True
+        if isinstance(n, nodes.Neg):
+            return -self.expr(n.node)
+        if isinstance(n, nodes.Pos):
+            return +self.expr(n.node)
+        if isinstance(n, (nodes.Div, nodes.FloorDiv, nodes.Mod)):
+            l_, r_ = self.expr(n.left), self.expr(n.right)
+            if l_ is UNDEF or r_ is UNDEF:
+                raise AnalysisError(f"{self.name}:{n.lineno}: arithmetic on an undefined value")
+            return l_ / r_ if isinstance(n, nodes.Div) else (l_ // r_ if isinstance(n, nodes.FloorDiv) else l_ % r_)
         if isinstance(n, nodes.Sub):
             return self.expr(n.left) - self.expr(n.right)
         if isinstance(n, nodes.Concat):
